@@ -1,4 +1,5 @@
 import HcModel.Notify
+import HcModel.NotifyWire
 import HcModel.Drv.Pair
 /-
   Driver op for the notification fan-out model (C10):
@@ -54,6 +55,9 @@ def run (toks : List String) : Option String := do
 
 def handle : List String → String
   | "run" :: rest => (run rest).getD "bad-op"
+  | ["fix", h] => match fromHex h with
+    | some b => hexOrDash (Hc.NotifyWire.fixProto b)
+    | none => "bad-op"
   | _ => "bad-op"
 
 end Hc.Drv.Notify
